@@ -826,6 +826,45 @@ def gen(rng, tier):
     # all strings of length <= 2 over the focus alphabet, and every single byte
     cases.append([P(bytes([c])) for c in range(1, 256)])
     cases.append([P(b"")] + [P(bytes([a, b])) for a in FOCUS for b in FOCUS])
+    # --- format-driven parser Date(str, fmt): well-formed pairs, truncated / mutated strings, formats longer than the string
+    fmts = [b"D/M/Y?h:m", b"Y-M-D h:m:s", b"YMD", b"Y-M-DTh:m:sZ", b"D.M.Y", b"h:m:s D/M/Y", b"??Y??", b"Y", b"M/D/Y h:m", b"Y-M-D?h:m:s?????", b"D M Y", b"x", b"?"]
+    batch = []
+    for _ in range(12000 if big else 1500):
+        f = rng.choice(fmts)
+        if rng.random() < 0.3:
+            f = mutate(rng, f, b"YMDhms?/-: .x")
+        y, m, d, h, mi, sec = py_fields(rand_ms(rng))[:6]
+        val = {89: y, 77: m, 68: d, 104: h, 109: mi, 115: sec}
+        st = bytearray()
+        for c in f:
+            if c in val:
+                r = rng.random()
+                v = val[c] if r < 0.7 else rng.randrange(0, 1000000) if r < 0.9 else rng.randrange(-99999, 100)
+                st += (b"%d" % v) if rng.random() < 0.8 else (b"%02d" % v if v >= 0 else b"%d" % v)
+            elif c == 63:
+                st.append(rng.choice(b" T:/x"))
+            else:
+                st.append(c)
+        st = bytes(st)
+        r = rng.random()
+        if r < 0.25:
+            st = st[:rng.randrange(len(st) + 1)]
+        elif r < 0.5:
+            st = mutate(rng, st, b"0123456789 +-/:.Tx")
+        elif r < 0.55 and 89 not in f:
+            # TODO(int overflow): a year beyond +-5.8e6 overflows 365*(y-1970) (signed overflow, no memory effect); long digit runs only without Y
+            k = rng.randrange(len(st) + 1)
+            st = st[:k] + bytes(rng.choice(b"0123456789") for _ in range(rng.randrange(7, 26))) + st[k:]
+        if 89 in f and re.search(rb"[0-9]{7}", st):
+            continue
+        st = st.replace(b"\0", b"0")
+        f = f.replace(b"\0", b"?")
+        batch.append("parsefmt %s %s" % (hexs(st), hexs(f)))
+        if len(batch) >= 25:
+            cases.append(batch)
+            batch = []
+    if batch:
+        cases.append(batch)
     # --- construct from fields: valid tuples and every kind of out-of-range component
     for _ in range(6000 if big else 800):
         r = rng.random()
@@ -844,7 +883,7 @@ def gen(rng, tier):
 
 
 def nontrivial(case):
-    return any(l.split()[0] in ("inst", "split", "make", "rt", "fmt") or (l.startswith("parse ") and len(l.split()[1]) >= 16) for l in case)
+    return any(l.split()[0] in ("inst", "split", "make", "rt", "fmt", "parsefmt") or (l.startswith("parse ") and len(l.split()[1]) >= 16) for l in case)
 
 
 def _parse_class(b):
